@@ -690,7 +690,7 @@ hdf_write_dim(XDR *xdrs, NC *handle, NC_dim **dim, int32 cnt)
     int32 refs[100];
     int32 count;
     const char *class          = NULL;
-    char  name[H4_MAX_NC_NAME] = "";
+    char  name[H4_MAX_NC_NAME + 1] = ""; /* a name may have H4_MAX_NC_NAME characters */
     int32 ret_value            = SUCCEED;
 
     /*
@@ -1153,7 +1153,7 @@ done:
 int
 hdf_read_dims(XDR *xdrs, NC *handle, int32 vg)
 {
-    char     vgname[H4_MAX_NC_NAME]   = "";
+    char     vgname[H4_MAX_NC_NAME + 1] = ""; /* a name may have H4_MAX_NC_NAME characters */
     char     vsclass[H4_MAX_NC_CLASS] = "";
     char     vgclass[H4_MAX_NC_CLASS] = "";
     int      id, count, i, found;
@@ -1387,7 +1387,7 @@ hdf_read_attrs(XDR *xdrs, NC *handle, int32 vg)
     int     count, t, n;
     int32   vs, tag, id, vsize, attr_size, nt, order;
     nc_type type;
-    char    vsname[H4_MAX_NC_NAME] = "";
+    char    vsname[H4_MAX_NC_NAME + 1] = "";
     char    fields[100]            = "";
     char class[H4_MAX_NC_CLASS]    = "";
     char     *values               = NULL;
@@ -1508,8 +1508,8 @@ done:
 int
 hdf_read_vars(XDR *xdrs, NC *handle, int32 vg)
 {
-    char vgname[H4_MAX_NC_NAME]  = "";
-    char subname[H4_MAX_NC_NAME] = "";
+    char vgname[H4_MAX_NC_NAME + 1]  = ""; /* a name may have H4_MAX_NC_NAME characters */
+    char subname[H4_MAX_NC_NAME + 1] = "";
     char class[H4_MAX_NC_CLASS]  = "";
     NC_var      **variables      = NULL;
     NC_var       *vp             = NULL;
